@@ -34,6 +34,8 @@ def run(tier, seed):
                  "values and leaves only 0x20-0x7e in the string it then prints; format strings are printable literals. "
                  "File data written by 'p' and by extraction is not header text and is outside the rule by construction.")
     with Context(tier) as ctx:
+        from .. import selfcheck
+        selfcheck.run(ctx, rep, ['taint'])
         mod = ctx.plain()
         cg = CallGraph(mod)
         T = Taint(mod, cg, SOURCE_FIELDS, SOURCE_ARRAYS, SANITISERS)
